@@ -36,26 +36,66 @@ def _run(c, name, n, seed=None, corr=("corr_enc", "corr_dec"), spec=("spec_round
     c.cases(name, out, imports, "ecase", corr=list(corr), spec=list(spec), premise=["premise_ok"])
 
 
+NEG_IMPORTS = ("From Coq Require Import String.\n"
+               "From Ergo Require Import Common.Base Common.Bytes Common.Codec Edf.Model Edf.Cases Edf.Negotiate Edf.NegCases.\n"
+               "Local Open Scope N_scope.\n")
+
+
+def _run_neg(c, name, n, seed=None, corr=("corr_neg_cache", "corr_neg_enc", "corr_neg_dec"), spec=("spec_negotiated",)):
+    """two nodes with different registries; caches negotiated by the real handshake helpers"""
+    args = ["negotiated", "-n", str(n)]
+    if c.replay and seed is None:
+        args = ["negotiated", "-replay", c.replay]
+    env = {"VERIF_SEED": str(seed)} if seed is not None else None
+    out = c.harness("edf", args, env=env)
+    if not out:
+        return
+    imports = NEG_IMPORTS + out.get("extra", {}).get("prelude", "")
+    c.cases(name, out, imports, "ncase", corr=list(corr), spec=list(spec), premise=["premise_neg"])
+
+
+def _is_neg_replay(path):
+    import json
+    try:
+        return "neg" in json.load(open(path)).get("case", {})
+    except Exception:
+        return False
+
+
 def run(c):
     c.proofs("theories/Properties/C11.v", clean=(c.tier == "thorough"))
     # the checker definitions are not in the cone of the property file: (re)build them after the cone
     import vlib
-    ok, log = vlib.coq_make(["theories/Edf/Cases.vo"])
+    ok, log = vlib.coq_make(["theories/Edf/Cases.vo", "theories/Edf/NegCases.vo"])
     if not ok:
-        c.broken.append({"kind": "proof", "what": "Coq build of theories/Edf/Cases.v failed", "detail": log[-2500:]})
+        c.broken.append({"kind": "proof", "what": "Coq build of theories/Edf/Cases.v / NegCases.v failed", "detail": log[-2500:]})
     n = 1500 if c.tier == "quick" else 20000
-    _run(c, "roundtrip", n)
+    nn = 250 if c.tier == "quick" else 6000
+    if c.replay:
+        if _is_neg_replay(c.replay):
+            _run_neg(c, "negotiated", nn)
+        else:
+            _run(c, "roundtrip", n)
+    else:
+        _run(c, "roundtrip", n)
+        _run_neg(c, "negotiated", nn)
     if c.broken and not c.violations and not c.replay:
         # something no longer checks: spend the extra search budget on the property monitors only
         keep = list(c.broken)
         _run(c, "roundtrip-search", n * 10 if c.tier == "quick" else n * 3, seed=c.seed + 7919, corr=())
+        _run_neg(c, "negotiated-search", nn * 10 if c.tier == "quick" else nn * 3, seed=c.seed + 7919, corr=())
         c.broken = keep + [b for b in c.broken if b not in keep]
     c.cov["rule"] = ("distinct = different Coq case term (type, value, options, bytes); non-trivial = the encoder model "
-                     "accepts the value and the guard of C11_roundtrip_partial holds (the theorem applies to the case)")
+                     "accepts the value, the guard of C11_roundtrip_partial holds and Unmarshal inverts Marshal on the marshaler "
+                     "states of the case (the theorem applies to the case); negotiated: both registries well formed, node B's texts "
+                     "injective (hypotheses of neg_sentinel_spec), options well formed, value accepted and supported")
     c.assumptions += [
         "Go values are presented to the model by the harness (reflect): ints as Z, floats as IEEE bit patterns, "
         "strings/atoms/binaries as byte lists, time.Time as its MarshalBinary form, errors as (sentinel identity, text)",
         "the decoder side runs with the options net/proto/enp.go installs for the same connection (caches by id, atom mapping reversed)",
-        "edf.Marshaler / encoding.BinaryMarshaler types and options.Cache memoisation are outside the model",
+        "edf.Marshaler / encoding.BinaryMarshaler types: the user's Unmarshal inverts the user's Marshal (hypothesis marsh_inv of the "
+        "theorems; proved for the harness's HMar / HBin, evaluated on every case by premise_ok); options.Cache memoisation is outside the model",
+        "negotiated family: the two nodes live in one process (one edf type registry; error and atom tables are per node), each "
+        "MessageIntroduce crosses the handshake's real framing over net.Pipe, caches come from handshake.VerifCaches (build tag verif)",
         "time.Time.MarshalBinary / UnmarshalBinary of the Go standard library round-trip (only the length/version check is modelled)",
     ]
